@@ -20,10 +20,15 @@ package oxia
 //@ ensures response != nil && response.Status == 0 && selected != keyNotFound && (kc == 2 || kc == 4) ==> res == ite(compareGetResponse(selected, response) > 0, response, selected)
 //@ modifies nothing
 
+// compareGetResponse orders two shard answers by secondary key first (when both carry
+// one), then by primary key, each in the hierarchical key order.
+//
 //@ func compareGetResponse
 //@ property C20
 //@ pure
 //@ requires a != nil && b != nil
+//@ ensures a.SecondaryIndexKey != nil && b.SecondaryIndexKey != nil && compare.CompareWithSlash(bytes(*a.SecondaryIndexKey), bytes(*b.SecondaryIndexKey)) != 0 ==> result == compare.CompareWithSlash(bytes(*a.SecondaryIndexKey), bytes(*b.SecondaryIndexKey))
+//@ ensures a.SecondaryIndexKey == nil || b.SecondaryIndexKey == nil || compare.CompareWithSlash(bytes(*a.SecondaryIndexKey), bytes(*b.SecondaryIndexKey)) == 0 ==> result == compare.CompareWithSlash(bytes(a.GetKey()), bytes(b.GetKey()))
 //@ reads fields(proto.GetResponse), fields(string), fields(uint8)
 //@ modifies nothing
 
@@ -66,3 +71,14 @@ package oxia
 //@ requires snm.nm != nil && snm.nm.shardManager != nil && snm.nm.clientPool != nil && snm.backoff != nil && snm.ctx != nil
 //@ assert at call GetNotifications#0: in != nil && in.Shard == snm.shard && (snm.initialized ==> in.StartOffsetExclusive != nil && *in.StartOffsetExclusive == snm.lastOffsetReceived)
 //@ modifies *
+
+// ---------------------------------------------------------------- merging range scans (C20)
+
+// The merge heap of a multi-shard range scan orders the shard heads by the
+// hierarchical key order — the order each shard returns its own results in.
+//
+//@ func ResultHeap.Less(h, i, j) (res)
+//@ property C20
+//@ requires 0 <= i && i < len(h) && 0 <= j && j < len(h) && h[i] != nil && h[j] != nil
+//@ ensures res <==> compare.CompareWithSlash(bytes(h[i].gr.Key), bytes(h[j].gr.Key)) < 0
+//@ modifies nothing
